@@ -1,5 +1,6 @@
 """C10 replayer/recorder: steps TLC-generated call sequences through real AEAD objects and records, after every call, the
 exception class, the outputs and the projection of the private state.  Computes no verdicts."""
+import inspect
 import json
 import os
 import random
@@ -115,6 +116,7 @@ def replay(family, hist, cfg, r, tid):
     siv_last_ok = True
     direction = "none"
     events = []
+    inplace = tid % 3 == 1
     for e in hist:
         op = e["op"]
         ev = dict(e)
@@ -157,6 +159,10 @@ def replay(family, hist, cfg, r, tid):
         try:
             if op == "update":
                 c.update(data)
+            elif op in ("encrypt", "decrypt") and inplace and data and "output" in inspect.signature(getattr(c, op)).parameters:
+                buf = bytearray(data)                   # every third history: results written over the input (the call order is the same)
+                getattr(c, op)(buf, output=buf)
+                out = bytes(buf)
             elif op == "encrypt":
                 out = c.encrypt(data)
             elif op == "decrypt":
@@ -175,6 +181,10 @@ def replay(family, hist, cfg, r, tid):
                 c.hexverify(tag.hex())
             elif op == "encrypt_and_digest":
                 out, rtag = c.encrypt_and_digest(data)
+            elif op == "decrypt_and_verify" and inplace and data and "output" in inspect.signature(c.decrypt_and_verify).parameters:
+                buf = bytearray(data)
+                c.decrypt_and_verify(buf, tag, output=buf)
+                out = bytes(buf)
             elif op == "decrypt_and_verify":
                 out = c.decrypt_and_verify(data, tag)
             else:
